@@ -256,6 +256,29 @@ func race(script string, dir, base string, timeout int, all bool) (solveResult, 
 // Solve discharges one obligation: phase A without quantified assumptions,
 // phase B with all assumptions.
 func (o *Obligation) Solve(dir string, timeout int, all bool) {
+	if len(o.SubObls) > 0 {
+		total := 0.0
+		o.Status = "unsat"
+		for _, sub := range o.SubObls {
+			if sub.Goal == "true" || sub.Guard == "false" {
+				continue
+			}
+			sub.Inputs = o.Inputs
+			sub.Solve(dir, timeout, all)
+			total += sub.Seconds
+			o.Solver = sub.Solver
+			if sub.Status != "unsat" {
+				o.Status, o.Raw, o.Model, o.Phase = sub.Status, sub.Raw, sub.Model, sub.Phase
+				o.Guard, o.Goal, o.Mark = sub.Guard, sub.Goal, sub.Mark
+				break
+			}
+		}
+		o.Seconds = total
+		if o.Solver == "" {
+			o.Solver = "syntactic"
+		}
+		return
+	}
 	if len(o.Parts) > 1 {
 		// one query per conjunct; discharged iff every one is unsat
 		total := 0.0
@@ -449,7 +472,7 @@ func solveAll(obls []*Obligation, dir string, timeout int, all bool) {
 		if o.Kind == "structural" {
 			continue
 		}
-		if o.Goal == "true" || o.Guard == "false" {
+		if (o.Goal == "true" || o.Guard == "false") && len(o.SubObls) == 0 {
 			if o.Kind != "vacuity" {
 				o.Status, o.Solver = "unsat", "syntactic"
 				continue
